@@ -71,7 +71,7 @@ PROPS = {
         "title": "Server-sent events: the encoder under contract and read back by an EventSource client (deductive); delivery order, exactly-once and stream end over a live server (bounded)",
         "design_ref": "DESIGN.md section 3 (C11)",
         "technique": "Verus contracts on the real Event::write_to, Event::custom and EventSender::send / disconnect / is_connected (src/event.rs; write! through rule R12 on a byte-slice sink, the line splitter through a rule-S1 stand-in) against a block specification, plus theorems over that specification: an EventSource client written from the WHATWG text dispatches exactly the event sent; the queue, the threads and the response writer only by a bounded stand-in over a live server",
-        "level_text": "Deductive proof for every event: write_to hands the body writer exactly the block enc(e) -- an `event:` field iff the event has a type, one `data:` field per line of the data, lines split at CRLF, LF and CR -- reports its UTF-8 length and never reports 0 bytes (the body writer reads 0 as the end of the stream, so no event content can end it); Event::custom refuses exactly the types containing CR or LF. Theorems over enc: a client with empty buffers that receives enc(e), a blank line and anything else dispatches exactly one event with e's type (`message` when none) and e's data with line ends as LF (exactly the data when it has no CR), leaves the last-event-id and the reconnection time alone and continues with empty buffers (thm_event_reads_back); a sequence of blocks is dispatched exactly once each in order (thm_stream_in_order). EventSender: send never leaves a sender connected whose event the queue did not take, a disconnected sender stays disconnected. EventReceiver::poll_read: a 0-byte read (the end of the stream) is reported when and only when the queue reports that every sender is gone; Pending iff the queue is pending; a received event is handed on as its whole block.",
+        "level_text": "Deductive proof for every event: write_to hands the body writer exactly the block enc(e) -- an `event:` field iff the event has a type, one `data:` field per line of the data, lines split at CRLF, LF and CR -- reports its UTF-8 length and never reports 0 bytes (the body writer reads 0 as the end of the stream, so no event content can end it); Event::custom refuses exactly the types containing CR or LF. Theorems over enc: a client with empty buffers that receives enc(e), a blank line and anything else dispatches exactly one event with e's type (`message` when none) and e's data with line ends as LF (exactly the data when it has no CR), leaves the last-event-id and the reconnection time alone and continues with empty buffers (thm_event_reads_back); a sequence of blocks is dispatched exactly once each in order (thm_stream_in_order). EventSender: send never leaves a sender connected whose event the queue did not take, a disconnected sender stays disconnected. EventReceiver::poll_read with read_waiting / read_event: while part of an event is waiting, the queue is left alone and the next piece is delivered (as much as fits, in order, never 0 bytes, the rest keeps waiting); otherwise a 0-byte read (the end of the stream) is reported when and only when the queue reports that every sender is gone, Pending iff the queue is pending, and a received event is handed on as its whole block if the window holds it, else as its first bytes with exactly the rest left waiting -- no event is refused for its size (repaired defect f72b510).",
         "level_note": "Partial claim with one open known finding: the block is not ended by a blank line (tests/event.rs pins the bytes `data: msg1\\n`), so a conforming client never dispatches; the theorems supply the blank line. Not within the technique: the bounded queue between sender threads and the response writer, exactly-once delivery and the terminating chunk under real concurrency -- bounded only (stand-in c11: live server, one event per chunk, 30-40 events in order, contents that must not end the stream, two senders, overrun of the queue of 50). Assumed: the rule-S1 stand-ins (byte slice as io::Write with UTF-8 lengths additive; the line splitter = lines_of, compared with the real expression by c11 on all strings over a 6-letter alphabet up to length 5), try_send does not block.",
         "verus": ["sse"],
         "verus_thorough": [],
@@ -84,9 +84,11 @@ PROPS = {
             "assumed: SyncSender::try_send never blocks and reports whether the queue took the value (queue_takes is uninterpreted)",
             "rule S1 on poll_read: `mut self: Pin<&mut Self>` -> `&mut self`, `Pin::new(&mut self.0).poll(cx)` -> recv_poll(&mut self.0, cx) (its answer is the uninterpreted last_poll), `futures_io::AsyncRead` -> a one-method stand-in trait",
             "utf8_len is uninterpreted with additivity, >= character count, 0 for the empty text",
+            "the byte level of a partly delivered event: rule S1 `buf.len().min(self.1.len())` -> min_usize(buf.capacity(), ..), `buf[..n].copy_from_slice(&self.1[..n]);` -> buf.put_front(&self.1, n), `self.1.drain(..n);` -> drop_front (assumed meanings); utf8(s) uninterpreted with length utf8_len(s)",
+            "assumed contract: Event::push_to appends the UTF-8 form of the event's block (delivered_form; the same text as write_to on a Vec<u8>, compared byte for byte with write_to by c11)",
         ],
         "not_covered": [
-            "Event::push_to (same text as write_to on a Vec<u8>; compared byte for byte with write_to by c11)",
+            "Event::push_to on its real text (assumed contract; same text as write_to on a Vec<u8>; compared byte for byte with write_to by c11)",
             "the blocking Read::read of EventReceiver (same three arms as poll_read; not used by the server)",
             "ordering / exactly-once / queue overrun / sender outliving the client under real concurrency: bounded c11 only",
             "the closing blank line (open known finding)",
